@@ -53,6 +53,10 @@ CLAIMED = {
             'bounded, solver-complete inside the bound: M M^-1 = M^-1 M = I for every non-singular 2x2 (3x3 thorough) including zero leading entries; A x = b for n<=2 with a re-used solution vector; determinant = Leibniz sum n<=3(4); normal equations; wrappers memory-safe with conformable outputs for square n<=3 and 3x2 / 2x3',
             'LAPACK numerics replaced by contract stubs; exact reals; SolveLSE entries of magnitude in (0,1e-3) excluded (absolute 1e-4 pivot tests); Penrose conditions and multiplicativity not decided',
             'DESIGN.md 5/C12'),
+    'C19': ('CBMC->real-arithmetic VC->z3 for the spline coefficient contracts, the piece lookup and the trapezoid area; CBMC SAT bit-precise with the objective as an uninterpreted function for the simplex',
+            'bounded, solver-complete inside the bound: for 3..4 knots (5 thorough) with ANY strictly increasing abscissae (gaps 1e-4..1e4) and ordinates: interpolation, C1, C2, natural ends, straight lines, evaluation with the right piece at any scale; area = trapezoid sum and additive n<=5; simplex d<=2, <=2 iterations, ANY deterministic objective: reported value = f(returned point) <= best initial vertex, iteration cap respected',
+            'exact reals for spline/area; convergence of the simplex to the minimiser not decided; objective values not NaN',
+            'DESIGN.md 5/C19'),
 }
 NA = {
     'C16': 'behaviour lives inside SQLite and libc decimal formatting (FFI + file I/O); nothing of it is source in /repo that could be executed symbolically - an encoding would verify a hand-written SQL fake, not the code',
